@@ -28,13 +28,8 @@ def mkcfg(wrap=1, margin=0, offs=(0, 0, 0, 0), pf=None, tabstop=0, before=None):
     return [int(wrap), int(margin), list(offs), pfx, tabstop, [1, S(before)] if before is not None else [0, []]]
 
 
-# 0: /repo is the code as pinned (finding C11-F1 open); 1: fixes/C11-wrap-cursor-row.patch
-# has been applied to /repo (then C11-F1 must be moved to "fixed" in known_findings.d/C11.json)
-FIXED = int(os.environ.get("VERIF_C11_FIXED", "0"))
-
-
 def mkcase(cfg, states):
-    return [cfg, make_chartab(cfg, states), states, FIXED]
+    return [cfg, make_chartab(cfg, states), states]
 
 
 # --------------------------------------------------------------------------
@@ -186,7 +181,7 @@ def gen_random(chk, dist):
 
 
 WITNESSES = [
-    # C11-F1  Window 5x1, 'abcde', cursor at the end
+    # C11-F1 (fixed by /repo commit f4b07a8)  Window 5x1, 'abcde', cursor at the end
     mkcase(mkcfg(1), [[5, 1, 0, 0, S("abcde"), 5]]),
     mkcase(mkcfg(1), [[5, 2, 0, 0, S("abcdefghij"), 10]]),
     # C11-F13 / F14 of DESIGN.md
@@ -198,9 +193,9 @@ WITNESSES = [
     mkcase(mkcfg(1), [[3, 2, 0, 0, S("abc\u0301"), 3]]),
 ]
 
-MALFORMED = [[], [1], [[1, 0], [], [], 0], [mkcfg(), [], [[5, 2, 0, 0, 7, 0]], 0], [mkcfg(), [[97, 1, 1]], [], 0],
-             [mkcfg()[:5], [], [], 0], [[2] + mkcfg()[1:], [], [], 0], [mkcfg(tabstop=-1), [], [], 0],
-             [mkcfg(), [], []], [mkcfg(), [], [], 2]]
+MALFORMED = [[], [1], [[1, 0], [], []], [mkcfg(), [], [[5, 2, 0, 0, 7, 0]]], [mkcfg(), [[97, 1, 1]], []],
+             [mkcfg()[:5], [], []], [[2] + mkcfg()[1:], [], []], [mkcfg(tabstop=-1), [], []],
+             [mkcfg(), [], [], 0]]
 
 
 # --------------------------------------------------------------------------
@@ -308,7 +303,7 @@ def main(tier):
                 chk.violation("oracle", "%s | %s | previous scroll (v, v2, h)=%r | rows drawn: %r" % (
                     clause, describe_state(cfg, st), obs["prev"],
                     ["".join(obs["scr"].data_buffer[y + obs["ypos"]][x + obs["xpos"] + obs["mw"]].char for x in range(obs["bw"])) for y in range(obs["H"])]),
-                    tags, {"case": [cfg, chartab, hist, FIXED], "state_index": si, "clause": clause,
+                    tags, {"case": [cfg, chartab, hist], "state_index": si, "clause": clause,
                            "how": "harness/c11_impl.py Window11(cfg).render(state) for each state in order, one Window"})
 
         t0 = time.time()
